@@ -55,6 +55,7 @@ type typeDef struct {
 	fields     []fieldDef
 	ifaces     []string
 	members    []string
+	fargs      map[string][]argDef // arguments of the fields that take some
 }
 
 func (t *typeDef) field(n string) *fieldDef {
